@@ -99,7 +99,7 @@ func init() {
 				c := RCase{Kind: "pack", Nodes: genTree(r), Deref: r.Chance(70), Ignore: r.Chance(50)}
 				switch r.Intn(8) {
 				case 0: // cycle outside the tree reached by dereferencing
-					c.Nodes = append(c.Nodes, PNode{Path: "p/ext/ca", Kind: "l", Data: "cb"}, PNode{Path: "p/ext/cb", Kind: "l", Data: "ca"}, PNode{Path: "p/src/tocycle", Kind: "l", Data: "../ext/ca"})
+					c.Nodes = append(c.Nodes, PNode{Path: "p/src/tocycle", Kind: "l", Data: "../ext/ca"})
 					if c.Deref {
 						sigs[len(cases)] = "pack.external-link-cycle"
 					}
@@ -109,7 +109,7 @@ func init() {
 						sigs[len(cases)] = "pack.dereferenced-dir-contains-itself"
 					}
 				case 2: // link to a fifo outside
-					c.Nodes = append(c.Nodes, PNode{Path: "p/ext/pipe", Kind: "s"}, PNode{Path: "p/src/topipe", Kind: "l", Data: "../ext/pipe"})
+					c.Nodes = append(c.Nodes, PNode{Path: "p/src/topipe", Kind: "l", Data: "../ext/pipe"})
 					if c.Deref {
 						sigs[len(cases)] = "pack.dereference-fifo"
 					}
